@@ -10,11 +10,11 @@ THEOREMS = [
     "C01_init",
     "C01_allocator_total",
     "C01_started_on_free_slot",
-    "C01_running_subset_in_progress_partial",
+    "C01_running_subset_in_progress",
+    "C01_running_bounded",
     "C01_running_same_event_partial",
-    "C01_running_bounded_partial",
-    "C01_refuted_running_bounded",
-    "C01_refuted_running_subset_in_progress",
+    "C01_refuted_running_bounded_unrepaired",
+    "C01_refuted_running_subset_in_progress_unrepaired",
 ]
 LEAN_TARGETS = ["WfProps.C01"]
 EXPLANATION = (
@@ -22,15 +22,14 @@ EXPLANATION = (
     "state the in-progress worker ids of every step are distinct and in [0,num_workers) (hence at most num_workers), "
     "the slot allocator never fails, and a started worker gets a slot that was free; lifted to the runner LTS for arbitrary action lists: "
     "the live worker tasks are backed by in_progress rows and occupy pairwise distinct slots, hence at most num_workers per step "
-    "(for schedules where no invocation names a collect buffer twice; the unguarded statement is refuted by a concrete witness). Tie: reducer model vs real "
+    "(every schedule; the reducer before the repair 'at most one collect re-run per step result' is kept as a variant and refuted by a concrete witness). Tie: reducer model vs real "
     "_reduce_tick/rewind_in_progress on generated (state,tick) pairs incl. ill-formed ones, and whole live runs "
     "replayed tick by tick on the runner model (buffer, timers, worker set, commands, state). Search: real step "
     "bodies count concurrent entries per step; stream slot discipline; in_progress tables after every tick."
 )
 ASSUMPTIONS = suite.ENGINE_ASSUMPTIONS + [
-    "live worker tasks (Runner.running) are a duplicate-free sub-table of in_progress: proved on the runner model for every schedule in "
-    "which no invocation names a collect buffer twice (Act.CollectOnce); without that guard it is refuted (one tick can re-run a slot twice, "
-    "harness/corpus/c01_double_collect_rerun_witness.py) and the generated workflows do not exercise it",
+    "the event of a live task equals the event of its in_progress row only when collect re-runs carry the invocation's own event "
+    "(C01_running_same_event_partial; a step may pass any event to collect_events)",
     "cannot exhibit: a sync step whose executor thread outlives its cancelled task",
 ]
 
@@ -38,8 +37,14 @@ ASSUMPTIONS = suite.ENGINE_ASSUMPTIONS + [
 def run(env: Env) -> Outcome:
     out = Outcome()
     out.rule = ("direct: random (state,tick) pairs; live: random scripted workflows (2-5 steps, num_workers 1-4, retries, collect, wait, "
-                "handlers, externals) under random gate schedules; non-trivial = more than 2 ticks processed; distinct by (spec, schedule)")
+                "handlers, externals) under random gate schedules, plus a fan-in family whose collecting step calls collect_events 2-4 times on one buffer per invocation; non-trivial = more than 2 ticks processed; distinct by (spec, schedule)")
     suite.direct_corr(env, out, env.budget(3000, 60000))
+    import random as _random
+
+    from ..engine import specgen
+    mrng = _random.Random(env.rng.randrange(1 << 30))
+    multi = [{"spec": specgen.gen_multicollect_spec(mrng), "seed": mrng.randrange(1 << 30)} for _ in range(env.budget(40, 800))]
+    out.count("live:multicollect_specs", len(multi))
     suite.live_runs(env, out, env.budget(400, 8000), [monitors.mon_c01],
-                    extra_specs=[c for c in suite.load_corpus("C01")])
+                    extra_specs=[c for c in suite.load_corpus("C01")] + multi)
     return out
